@@ -237,10 +237,61 @@ def check_plate(b, p, key, rng):
             b.V('C10', 'plate_get_substances', key, f"{p.name}.get_substances() = {sorted(names)}, wells hold {sorted(listed)}")
 
 
+def check_answer_owned(b, key, label, fn):
+    """What an observer hands out belongs to the caller: post-processing the returned array or set in place (scaling it,
+    masking it, discarding an element) must not change what the object answers next time."""
+    import numpy
+    a = b.call(fn)
+    if a[0] != 'ok':
+        return
+    x = a[1]
+    try:
+        if isinstance(x, numpy.ndarray) and x.size:
+            before = x.copy()
+            x *= 0
+            x -= 7
+            same = lambda y: isinstance(y, numpy.ndarray) and y.shape == before.shape and bool((y == before).all())  # noqa: E731
+        elif isinstance(x, set):
+            before = set(x)
+            x.clear()
+            x.add('scribble')
+            same = lambda y: set(y) == before  # noqa: E731
+        else:
+            return
+    except (ValueError, TypeError, AttributeError):
+        return              # read-only: nothing the caller can spoil
+    b.stats['obs:answer_owned_checked'] += 1
+    y = b.call(fn)
+    if y[0] != 'ok' or not same(y[1]):
+        b.V("C10", "answer_aliased", ("observer", label),
+            f"{label}: after the caller modified the returned {type(x).__name__} in place, the same question is answered "
+            f"{y[1] if y[0] == 'ok' else y[0]!r} (before: {before!r})")
+        # undo the damage so that the rest of the run judges the library, not the scribble
+        if isinstance(x, set):
+            x.clear()
+            x.update(before)
+        else:
+            x[...] = before
+
+
 def check_observers(b, ev, named, key):
     rng = random.Random(ev.get('obs', 0) * 1000003 + b.idx)
     rep = b.rep
+    W = b.world
     for name, obj in named:
+        if rng.random() < 0.3:
+            subs = sorted(W.msubs)
+            sname = rng.choice(subs)
+            if isinstance(obj, rep.Container):
+                check_answer_owned(b, key, 'get_substances', lambda: obj.get_substances())
+            else:
+                which = rng.choice(['get_volumes', 'get_volumes_substance', 'get_moles', 'get_substances', 'slice_get_volumes'])
+                fn = {'get_volumes': lambda: obj.get_volumes(unit='uL'),
+                      'get_volumes_substance': lambda: obj.get_volumes(substance=W.rsubs[sname], unit='uL'),
+                      'get_moles': lambda: obj.get_moles(W.rsubs[sname], unit='umol'),
+                      'get_substances': lambda: obj.get_substances(),
+                      'slice_get_volumes': lambda: obj[:].get_volumes(unit='uL')}[which]
+                check_answer_owned(b, key, which, fn)
         if isinstance(obj, rep.Container):
             check_container(b, obj, key, rng)
         elif isinstance(obj, rep.Plate):
